@@ -593,6 +593,9 @@ class dir_archive(archive):
                #raise OSError("error reading directory for '%s'" % key)
         else:
             import tempfile
+            _file = os.path.join(_dir, self._args if input else self._file)
+            if not os.path.exists(_file): # key is not in the archive, so
+                raise KeyError(key) # don't import 'base' from elsewhere
             base = os.path.basename(_dir) #XXX: PREFIX+key
             root = os.path.realpath(self.__state__['id'])
             name = tempfile.mktemp(prefix="_____", dir="").replace("-","_")
